@@ -7,6 +7,7 @@ import PLV.Model.Proto
 import PLV.Judge
 import PLV.Model.Conc
 import PLV.Model.TextProto
+import PLV.Model.JsonProto
 
 open PLV PLV.Proto
 
@@ -411,6 +412,37 @@ def step (s : DState) (line : String) : DState × String :=
      | none => bad s line)
   | "judge.C16" :: ty :: v :: out => (s, if joinWith " " out == "ok " ++ v then "J C16 ok" else "J C16 bad round-trip " ++ ty)
   | "judge.C18" :: out => (s, if out.head? == some "PANIC" || out.head? == some "TIMEOUT" then "J C18 bad parser-panicked" else "J C18 ok")
+  | ["json.enc", ty, v] =>
+    match JsonProto.encByType ty v with
+    | some j => (s, "json " ++ TextProto.hexOfString (String.ofList (J.render j)))
+    | none => bad s line
+  | ["json.dec", ty, h] =>
+    match TextProto.stringOfHex h with
+    | some t =>
+      (match J.parseJson t.toList with
+       | none => (s, "jparsed err")
+       | some j =>
+         match JsonProto.decByType ty j with
+         | some o => (s, "jparsed " ++ o)
+         | none => bad s line)
+    | none => bad s line
+  | ["pkg.make", l] =>
+    match arrange s.lvl l with
+    | some os =>
+      let p := J.Package.new J.sha { price := s.lvl.price, vis := s.lvl.vis, hid := s.lvl.hid, cnt := s.lvl.cnt, orders := os }
+      (s, "pkg " ++ TextProto.hexOfString (String.ofList (J.render (J.encPackage p))))
+    | none => (s, "pkg inadmissible-listing")
+  | ["pkg.restore", h] =>
+    match TextProto.stringOfHex h with
+    | some t => (s, JsonProto.restoreText t)
+    | none => bad s line
+  | "judge.C17" :: ty :: v :: out => (s, if joinWith " " out == "ok " ++ v then "J C17 ok" else "J C17 bad json-round-trip " ++ ty)
+  | "judge.C09" :: orig :: out =>
+    -- a restore that succeeds must yield exactly the content that was snapshotted
+    (s, match out with
+      | ["restored", "ok", c] => if c == orig then "J C09 ok" else "J C09 bad accepted-a-package-with-different-content"
+      | "restored" :: "err" :: _ => "J C09 ok"
+      | _ => "J C09 bad " ++ joinWith " " out)
   | ["read", _] => (s, "read")
   | ["state"] => (s, "state " ++ showState s.lvl)
   | [""] => (s, "")
